@@ -241,7 +241,7 @@ LEVELS = {
             "note": "Trusted: go/ssa, gosx, z3 (QF_UFBV), the reference decoder transcribed from Command.c/TransportSmb.c."},
     "C04": {"text": "Bounded symbolic execution of GetQueuedJobs/AddJobToQueue/UploadMemFileInChunks against a FIFO reference; sizes are symbolic so the 30 MB boundary and chunk boundaries are decided by the solver, not sampled.",
             "technique_suffix": "; two-thread interleavings explored by a bounded scheduler whose context switches are path decisions (<= 2 voluntary switches), confirmed natively under the Go race detector",
-            "note": "Sequential histories, plus two concurrent threads (enqueue against check-in, enqueue against enqueue) under the bounded scheduler with at most two voluntary context switches; the lost update on the unlocked queue is a known finding (known_findings.json), confirmed natively by the race detector."},
+            "note": "Sequential histories, plus two concurrent threads (enqueue against check-in, enqueue against enqueue) under the bounded scheduler with at most two voluntary context switches; the lost update on the formerly unlocked queue was found here and repaired (fix: commit 5a580c6); witnesses run natively under the race detector."},
     "C18": {"text": "Partial: bounded symbolic execution of the real scanner, parser and evaluator (hclsyntax expression*.go with the cty operator and conversion functions) on expression and template sources whose operator, selector and literal bytes are symbolic; the value (or the presence of an error diagnostic) is compared with reference semantics transcribed from the language specification; the solver decides the comparison for every byte value in the bound.",
             "note": "Shapes are fixed (two binary operators over three operands; one selector; seven template forms); operands are concrete small numbers/booleans because cty numbers are big.Float; see bounds for what is outside."},
     "C19": {"text": "Partial: bounded symbolic execution of the real native parser, JSON parser, body merging, dynamic-block expansion and the hcldec decoder on five spellings of one configuration whose string contents are symbolic; equality of the decoded values and of validity across the spellings is asserted and decided by the solver for every content in the bound.",
